@@ -33,6 +33,7 @@ type sysWorld struct {
 	tampered bool // some server has been scripted since `new` (sticky)
 	noAnchor bool // no live trust anchor
 	cleared  bool // … because the trust set was emptied in mid-history (caches may hold validated answers)
+	asked    map[string]bool // names that were resolved (as question or alias target) while the anchors were live
 	evil     *l3.KeyPair
 }
 
@@ -124,6 +125,14 @@ func sysNew(f []string) vlib.Res {
 		case "twoksk": // KSK roll: two KSKs published, both in the DS RRset, only the first signs
 			k1, k2 := poolPair(1003, z.Name, 257), poolPair(1006, z.Name, 257)
 			setKeys(w, z, []*l3.KeyPair{k1, k2}, []*l3.KeyPair{k2, k1})
+		case "dsmixed": // algorithm roll: the DS RRset also lists a DS of an algorithm this validator cannot use
+			k1 := z.Keys[0]
+			setKeys(w, z, []*l3.KeyPair{k1}, []*l3.KeyPair{k1})
+			if d := w.Delegation(z.Name); d != nil {
+				d.DS = append(d.DS, &dns.DS{Hdr: dns.RR_Header{Name: z.Name, Rrtype: dns.TypeDS, Class: dns.ClassINET, Ttl: 3600},
+					KeyTag: 4711, Algorithm: 16, DigestType: 2, Digest: digestHex(4711)[:64]})
+				z.Parent.Add()
+			}
 		case "dsextra": // DS RRset also names a key that is not published (pre-published successor)
 			k1, k2 := z.Keys[0], poolPair(1009, z.Name, 257)
 			setKeys(w, z, []*l3.KeyPair{k1}, []*l3.KeyPair{k2, k1})
@@ -386,9 +395,17 @@ func (s *sysWorld) apply(t tamper, q dns.Question, m *dns.Msg) *dns.Msg {
 	case "notyet":
 		sigs(func(sg *dns.RRSIG) { sg.Inception = uint32(now.Add(time.Hour).Unix()) })
 	case "resign-expired":
-		resign(now.Add(-30*24*time.Hour), now.Add(-time.Hour))
+		ago := time.Hour
+		if t.arg != "-" {
+			ago = time.Duration(vlib.Atoi(t.arg)) * time.Second
+		}
+		resign(now.Add(-30*24*time.Hour), now.Add(-ago))
 	case "resign-notyet":
-		resign(now.Add(time.Hour), now.Add(30*24*time.Hour))
+		ahead := time.Hour
+		if t.arg != "-" {
+			ahead = time.Duration(vlib.Atoi(t.arg)) * time.Second
+		}
+		resign(now.Add(ahead), now.Add(30*24*time.Hour))
 	case "resign-valid": // control: an honest re-signing must change nothing
 		resign(now.Add(-time.Hour), now.Add(24*time.Hour))
 	case "dropsigs":
@@ -666,7 +683,11 @@ func (s *sysWorld) apply(t tamper, q dns.Question, m *dns.Msg) *dns.Msg {
 				}
 				out = append(out, old...)
 				if strings.HasSuffix(strings.ToLower(set[0].Header().Name), strings.ToLower(z.Name)) {
-					out = append(out, signWith(z.Keys[0], z.Name, old, now.Add(-60*24*time.Hour), now.Add(-24*time.Hour)))
+					ago := 24 * time.Hour
+					if t.arg != "-" {
+						ago = time.Duration(vlib.Atoi(t.arg)) * time.Second
+					}
+					out = append(out, signWith(z.Keys[0], z.Name, old, now.Add(-60*24*time.Hour), now.Add(-ago)))
 				}
 			}
 			m.Answer = out
@@ -877,6 +898,22 @@ func sysQuery(f []string) vlib.Res {
 		r = sys.p.Query(name, qt, fl)
 	}
 	tr := sys.w.Truth(name, qt)
+	// an answer validated while the anchors were live may still be served from cache after their loss;
+	// a FRESH question may not be answered positively at all
+	if sys.asked == nil {
+		sys.asked = map[string]bool{}
+	}
+	key := func(n string, t uint16) string { return strings.ToLower(n) + "/" + fmt.Sprint(t) }
+	// (DS / DNSKEY / NS RRsets of the zones on a path are fetched and cached by the resolver itself)
+	knownBefore := sys.asked[key(name, qt)] || qt == dns.TypeDS || qt == dns.TypeDNSKEY || qt == dns.TypeNS
+	if !sys.noAnchor {
+		sys.asked[key(name, qt)] = true
+		for _, rr := range tr.Answer {
+			if c, ok := rr.(*dns.CNAME); ok {
+				sys.asked[key(c.Target, qt)] = true
+			}
+		}
+	}
 	tags := []string{"nt", "st:" + tr.Status, "k:" + tr.Kind}
 	if sys.tampered {
 		tags = append(tags, "tampered")
@@ -925,7 +962,7 @@ func sysQuery(f []string) vlib.Res {
 			add("l3/ad/set-for-cd-client", "%s %s", name, f[3])
 		case !wantsAD:
 			add("l3/ad/set-without-do-or-ad", "%s %s", name, f[3])
-		case sys.noAnchor && !(sys.cleared && isTruth):
+		case sys.noAnchor && !(sys.cleared && isTruth && knownBefore):
 			// (after a mid-history loss of the anchors an answer validated earlier may still be served from cache)
 			add("l3/ad/set-without-trust-anchor", "%s %s", name, f[3])
 		case tr.Status != l3.Secure:
@@ -950,7 +987,10 @@ func sysQuery(f []string) vlib.Res {
 	if !fl.CD {
 		switch {
 		case sys.noAnchor:
-			if !servfail && !otherError && !(sys.cleared && isTruth) {
+			// (cached: asked before the loss; or a denial synthesised from proofs validated before it)
+			fromCache := sys.cleared && ((isTruth && (knownBefore || tr.Kind == "nxdomain" || tr.Kind == "nodata")) ||
+				(knownBefore && tr.Status != l3.Secure))
+			if !servfail && !otherError && !fromCache {
 				add("l3/no-anchor/answered-without-trust-anchor", "%s %s rcode=%s ans=%v", name, f[3], dns.RcodeToString[r.Rcode], l3.SortRRs(ans))
 			}
 		case tr.Status == l3.Secure:
@@ -1071,7 +1111,7 @@ func genL3(r *vlib.R, emit func(string)) int {
 	same := vlib.B(r.Bool())
 	keys := "std"
 	if zone == "s" {
-		keys = vlib.Pick(r, []string{"std", "std", "pairkz", "pairkk", "twoksk", "dsextra"})
+		keys = vlib.Pick(r, []string{"std", "std", "pairkz", "pairkk", "twoksk", "dsextra", "dsmixed", "dsmixed"})
 	}
 	anchors := "t"
 	if r.Chance(1, 12) {
@@ -1138,7 +1178,8 @@ func genL3(r *vlib.R, emit func(string)) int {
 		{"inject-answer-front", "-", "data"}, {"inject-ns", "-", "data"}, {"inject-extra", "-", "data"}, {"inject-inzone", "-", "data"},
 		{"addrr", "-", "data"}, {"nodata-forge", "-", "data"}, {"nxdomain-forge", "-", "data"}, {"forge-answer", "-", "data"},
 		{"evilkey", "plain", "all"}, {"evilkey", "keepsig", "all"}, {"evilkey", "replace", "all"},
-		{"replay-old", "-", "data"}, {"replay-old", "-", "data"}, {"ds-to-soa", "-", "all"}, {"ds-to-nsec", "-", "all"}, {"ds-to-nssig", "-", "all"},
+		{"replay-old", "-", "data"}, {"replay-old", "90", "data"}, {"replay-old", "20", "data"}, {"replay-old", "280", "data"}, {"replay-old", "1000", "data"},
+		{"resign-expired", "60", "data"}, {"resign-expired", "200", "all"}, {"resign-notyet", "60", "data"}, {"resign-notyet", "250", "data"}, {"ds-to-soa", "-", "all"}, {"ds-to-nsec", "-", "all"}, {"ds-to-nssig", "-", "all"},
 		{"wildcard-replay", "-", "data"}, {"wildcard-replay", "foreign", "data"}, {"wildcard-replay", "foreign", "data"}, {"wildcard-replay", "foreign-root", "data"},
 		{"wildcard-replay", "inzone", "data"}, {"wildcard-replay", "foreignsig", "data"}, {"ds-childside", "-", "all"},
 		{"rcode", "1", "data"}, {"rcode", "4", "data"}, {"rcode", "5", "data"}, {"rcode", "9", "data"}, {"rcode", "3", "all"},
@@ -1195,8 +1236,15 @@ func genL3(r *vlib.R, emit func(string)) int {
 			}
 		}
 	}
-	if anchors == "t" && r.Chance(1, 10) {
+	if anchors == "t" && r.Chance(1, 7) {
+		// anchor loss in mid-history: the cuts (secure and insecure) are cached, then fresh names are asked
+		focus = nil
+		ask(2 + r.Intn(3))
 		e("l3 anchors clear")
+		for i := 0; i < 3+r.Intn(4); i++ {
+			q := vlib.Pick(r, qs)
+			e(fmt.Sprintf("l3 q %s %s %s", q.name, q.typ, vlib.Pick(r, []string{"d", "d", "-", "da", "n", "dw", "dc"})))
+		}
 	}
 	ask(2 + r.Intn(4))
 	return n
